@@ -1,8 +1,8 @@
 """unit for C09: the svf flag table, svf_get_flag, svf_parse_flags of btcdeb.cpp and STANDARD_SCRIPT_VERIFY_FLAGS of policy/policy.h"""
 from slice import *
 
-def unit_svf():
-    t = '#include "verif_std.h"\n#include "svf_env.h"\n'
+def svf_prefix(env):
+    t = '#include "verif_std.h"\n#include "' + env + '"\n'
     t += block('script/interpreter.h', r'^enum : uint32_t \{')
     t += between('policy/policy.h', r'^static const unsigned int MANDATORY_SCRIPT_VERIFY_FLAGS', r'^// \}', include_end=False)
     std = between('policy/policy.h', r'^static constexpr unsigned int STANDARD_SCRIPT_VERIFY_FLAGS\{', r'^#endif // BITCOIN_POLICY_POLICY_H')
@@ -24,6 +24,10 @@ def unit_svf():
     for k, e in enumerate(entries[:-1]):
         t += f'    if (k == {k}) return _({e});\n'
     t += f'    return _({entries[-1]});\n}}\n#undef _\n'
+    return t
+
+def unit_svf():
+    t = svf_prefix('svf_env.h')
     g = block('btcdeb.cpp', r'^static const unsigned int svf_get_flag\(', trailing=None)
     # R-RANGEFOR: `for (const auto& i : svf) STMT` -> index loop over the re-emitted table, same order, same statement
     g = rewrite(g, [(r'for \(const auto& i : svf\) ([^\n]*)\n', r'for (size_t verif_k = 0; verif_k < svf_count; ++verif_k) { const script_verify_flag i = svf_get(verif_k); \1 }\n', 1)])
@@ -33,3 +37,48 @@ def unit_svf():
     t += p
     t += '\n#include "h_svf.h"\n'
     return t
+
+def unit_svf_loop():
+    """svf_parse_flags as an inductive loop contract: the loop of the real function is cut mechanically into
+    (declarations, condition, body, statement after the loop); one iteration from an ARBITRARY loop state is then a function
+    under contract (harness/h_svf_loop.h).  svf_get_flag is replaced by its contract (proved by svf_table / svf_unknown)."""
+    t = '#include "verif_std.h"\n#include "svf_loop_env.h"\n'
+    p = block('btcdeb.cpp', r'^static unsigned int svf_parse_flags\(', trailing=None)
+    m = re.match(r'// ---- [^\n]*\nstatic unsigned int svf_parse_flags\(unsigned int in_flags, const char\* mod\) \{\n((?:    [^\n]*;\n)+)    for \(size_t i = 0; ([^;\n]+); i\+\+\) \{\n', p)
+    if not m:
+        raise SliceError("R-LOOPCUT: head of svf_parse_flags (signature, local declarations, loop header) not recognised")
+    decls, cond = m.group(1), m.group(2)
+    body_start = m.end() - 2                      # the '{' of the for statement
+    depth = 0; k = body_start
+    while True:
+        ch = p[k]
+        if ch == '{': depth += 1
+        elif ch == '}':
+            depth -= 1
+            if depth == 0: break
+        k += 1
+    body = p[body_start:k + 1]
+    tail = p[k + 1:].strip()
+    if tail != 'return in_flags;\n}'.strip() and re.sub(r'\s+', ' ', tail) != 'return in_flags; }':
+        raise SliceError(f"R-LOOPCUT: the statement after the loop is not `return in_flags;` ({tail[:60]!r})")
+    if re.search(r'\b(break|continue|return|goto)\b', body):
+        raise SliceError("R-LOOPCUT: the loop body leaves the loop other than by falling through or exit()")
+    body = rewrite(body, [(r'exit\(1\);', 'VERIF_EXIT(1);', '+')])
+    t += '// ---- R-LOOPCUT of svf_parse_flags (btcdeb.cpp): parameters and locals become file-scope objects, the loop condition and\n'
+    t += '// the loop body become functions of the loop counter; every token of declarations, condition and body is the sliced text\n'
+    t += 'static unsigned int in_flags; static verif_cstr_view mod;\n' + decls
+    t += 'static bool verif_loop_cond(size_t i) { return ' + cond + '; }\n'
+    t += 'static void verif_loop_body(size_t i) ' + body + '\n'
+    t += '\n#include "h_svf_loop.h"\n'
+    return t
+
+def unit_svf_string():
+    """svf_string (the flag listing of --default-flags and -v) with std::string modelled as a rope of pieces (svf_rope_env.h)"""
+    t = svf_prefix('svf_rope_env.h')
+    g = block('btcdeb.cpp', r'^static const std::string svf_string\(uint32_t flags, std::string separator = " "\) \{', trailing=None)
+    # R-RANGEFOR: `for (const auto& i : svf) {` -> index loop over the re-emitted table, same order
+    g = rewrite(g, [(r'for \(const auto& i : svf\) \{', 'for (size_t verif_k = 0; verif_k < svf_count; ++verif_k) { const script_verify_flag i = svf_get(verif_k);', 1)])
+    # R-TERN: conditional expression on class objects -> if / return (same order of evaluation, same values)
+    g = rewrite(g, [(r'return s\.size\(\) \? s\.substr\(separator\.size\(\)\) : "\(none\)";', 'if (s.size()) return s.substr(separator.size()); return "(none)";', 1)])
+    t += g
+    return t + '\n#include "h_svf_string.h"\n'
